@@ -384,6 +384,101 @@ func returnRows(c *Ctx, fn *ssa.Function) []siteRow {
 				key := fmt.Sprintf("%s#%d", k, count[k])
 				rows = append(rows, siteRow{key, conds, i})
 			}
+			// a named result of a function with deferred calls lives in a cell: `n = a; break …` in one branch, `n = b` in
+			// another, one `return n` — stated per store, like the separate `return a` / `return b` it stands for. Only
+			// when the stores exclude each other and every way to the return passes one of them.
+			nRet := 0
+			for _, bb := range f.Blocks {
+				if bb != f.Recover && len(bb.Instrs) > 0 {
+					if _, isR := bb.Instrs[len(bb.Instrs)-1].(*ssa.Return); isR {
+						nRet++
+					}
+				}
+			}
+			if len(ret.Results) >= 1 && nRet == 1 {
+				cellAt := -1
+				var cell *ssa.Alloc
+				for k := range ret.Results {
+					if u, ok := ret.Results[k].(*ssa.UnOp); ok && u.Op == token.MUL {
+						if al, ok := u.X.(*ssa.Alloc); ok && k < f.Signature.Results().Len() && f.Signature.Results().At(k).Name() != "" && al.Comment == f.Signature.Results().At(k).Name() {
+							var sts []*ssa.Store
+							for _, rf := range *al.Referrers() {
+								if st, ok := rf.(*ssa.Store); ok && st.Addr == ssa.Value(al) {
+									sts = append(sts, st)
+								}
+							}
+							if len(sts) >= 2 {
+								if cellAt >= 0 {
+									cellAt = -2
+									break
+								}
+								cellAt, cell = k, al
+							}
+						}
+					}
+				}
+				if os.Getenv("FPCHECK_DEBUG_CELL") != "" && strings.Contains(f.String(), os.Getenv("FPCHECK_DEBUG_CELL")) {
+					println("CELL", f.String(), "cellAt", cellAt, "nRet", nRet, c.Expr(ret.Results[0]))
+				}
+				if cellAt >= 0 {
+					var sts []*ssa.Store
+					for _, rf := range *cell.Referrers() {
+						if st, ok := rf.(*ssa.Store); ok && st.Addr == ssa.Value(cell) {
+							sts = append(sts, st)
+						}
+					}
+					// the zero value go/ssa stores on entry is what the others overwrite
+					var real []*ssa.Store
+					for _, st := range sts {
+						if k, isC := st.Val.(*ssa.Const); isC && st.Block().Index == 0 && (k.Value == nil || k.IsNil() || constStr(k) == "0" || constStr(k) == `""` || constStr(k) == "false") {
+							continue
+						}
+						if ld, isLoad := st.Val.(*ssa.UnOp); isLoad && ld.Op == token.MUL && ld.X == ssa.Value(cell) {
+							continue // `return n` of the named result itself: stores what is there
+						}
+						real = append(real, st)
+					}
+					sts = real
+					excl := len(sts) >= 2
+					for a := range sts {
+						for b := range sts {
+							if a != b && (reachesAfter(sts[a], sts[b]) || sts[a].Block() == sts[b].Block()) {
+								excl = false
+							}
+						}
+					}
+					isSt := func(j ssa.Instruction) bool {
+						for _, st := range sts {
+							if j == ssa.Instruction(st) {
+								return true
+							}
+						}
+						return false
+					}
+					if os.Getenv("FPCHECK_DEBUG_CELL") != "" && strings.Contains(f.String(), os.Getenv("FPCHECK_DEBUG_CELL")) {
+						for _, st := range sts {
+							println("CELL store", st.Block().Index, st.Block().Comment, c.Expr(st.Val))
+						}
+						println("CELL excl", excl, "nsts", len(sts), "esc", fmt.Sprint(c.escapePath(f, nil, isSt, func(j ssa.Instruction) bool { return j == i })))
+					}
+					if excl && c.escapePath(f, nil, isSt, func(j ssa.Instruction) bool { return j == i }) == nil {
+						for _, st := range sts {
+							var vals []string
+							for k := range ret.Results {
+								if k == cellAt {
+									vals = append(vals, c.ExprAt(st.Val, st.Block()))
+								} else {
+									vals = append(vals, c.Expr(retValue(ret, k)))
+								}
+							}
+							conds := c.reachConds(st.Block())
+							sort.Strings(conds)
+							emit(vals, uniq(conds))
+						}
+						return
+					}
+				}
+			}
 			// a result chosen on the way into the return block (`r := a; if c { r = b }; return r`) is stated per
 			// incoming edge, like the separate `return a` / `return b` it stands for
 			blk := i.Block()
